@@ -4,6 +4,9 @@
 //!   `P <mode> <specs> <arg>*`                     one vector against the real `parse_arguments`
 //!   `S <cmd> <mode> <specs> <setup> <probe> <arg>* ( | <arg>* )*`  equivalent spellings of one invocation
 //!   `M <cmd> <mode> <specs> <setup> <probe> <arg>*`                a malformed invocation
+//!   `T <portable> <names> <arg>*` / `H <names> <argv0> <arg>*` / `K <portable> <sigterm> <names> <arg>*`
+//!       the bespoke parsers set/syntax.rs, yash-cli startup/args.rs, kill/syntax.rs called directly; <names> = the
+//!       answers of yash_env::option / Signals::str2sig the parser can ask for on this vector (a parameter of the model)
 //!   `G <optstring> <arg>*`                        `while getopts optstring v arg…` run to the end in a virtual shell
 //!
 //! Observation of `P`: options (spec, spelling, argument) + operands, or the error class with the
@@ -672,6 +675,497 @@ fn run_g(w: &[&str]) -> (String, String) {
     (obs, oracle)
 }
 
+// ------------------------------------------------------------------------------------------
+// `T` / `H` / `K`: the bespoke parsers (set, the shell's command line, kill), called directly
+
+use yash_env::option::{Option as ShOpt, State as OptState};
+use yash_env::system::Signals as _;
+
+fn st_bit(s: OptState) -> u8 {
+    (s == OptState::On) as u8
+}
+
+fn suffixes(args: &[String]) -> Vec<String> {
+    let mut v: BTreeSet<String> = BTreeSet::new();
+    v.insert(String::new());
+    for a in args {
+        for (i, _) in a.char_indices() {
+            v.insert(a[i..].to_string());
+        }
+    }
+    v.into_iter().collect()
+}
+
+/// the answers of yash_env::option (and of str2sig) that a parser can ask for on this vector
+fn names_dict(args: &[String], signals: bool) -> String {
+    let mut e: Vec<String> = vec![];
+    let mut opts: BTreeSet<String> = BTreeSet::new();
+    let info = |o: ShOpt, opts: &mut BTreeSet<String>| {
+        opts.insert(format!(
+            "o:{}:{}:{}:{}",
+            enc_str(o.long_name()),
+            o.is_modifiable() as u8,
+            o.portable_short_name().map(|(c, s)| format!("{}.{}", enc_str(&c.to_string()), st_bit(s))).unwrap_or_else(|| "~".into()),
+            o.portable_long_name().map(|(n, s)| format!("{}.{}", enc_str(n), st_bit(s))).unwrap_or_else(|| "~".into()),
+        ));
+    };
+    let chars: BTreeSet<char> = args.iter().flat_map(|a| a.chars()).collect();
+    for c in chars {
+        if let Some((o, s)) = yash_env::option::parse_short(c) {
+            e.push(format!("s:{}:{}:{}", enc_str(&c.to_string()), enc_str(o.long_name()), st_bit(s)));
+            info(o, &mut opts);
+        }
+    }
+    let sufs = suffixes(args);
+    for s in &sufs {
+        match yash_env::option::parse_long(&yash_env::option::canonicalize(s)) {
+            Ok((o, st)) => {
+                e.push(format!("l:{}:{}:{}", enc_str(s), enc_str(o.long_name()), st_bit(st)));
+                info(o, &mut opts);
+            }
+            Err(yash_env::option::FromStrError::NoSuchOption) => {} // absent = no such option
+            Err(yash_env::option::FromStrError::Ambiguous) => e.push(format!("l:{}:A", enc_str(s))),
+        }
+    }
+    e.extend(opts);
+    if signals {
+        let env = yash_env::Env::new_virtual();
+        let mut keys: BTreeSet<String> = BTreeSet::new();
+        for s in &sufs {
+            let u = s.to_ascii_uppercase();
+            if let Some(r) = u.strip_prefix("SIG") {
+                keys.insert(r.to_string());
+            }
+            keys.insert(u);
+        }
+        for k in keys {
+            if let Some(n) = env.system.str2sig(&k) {
+                e.push(format!("g:{}:{}", enc_str(&k), n.as_raw()));
+            }
+        }
+    }
+    if e.is_empty() { "_".into() } else { e.join(",") }
+}
+
+fn show_opts(os: &[(ShOpt, OptState)]) -> String {
+    os.iter().map(|(o, s)| format!("{}={}", o.long_name(), st_bit(*s))).collect::<Vec<_>>().join(";")
+}
+
+fn show_strs<'a, I: Iterator<Item = &'a str>>(l: I) -> String {
+    l.map(enc_str).collect::<Vec<_>>().join(",")
+}
+
+fn observe_set(portable: bool, args: &[String]) -> String {
+    use yash_builtin::set::Command as C;
+    use yash_builtin::set::syntax::Error as E;
+    guarded(|| {
+        let fields: Vec<Field> = args.iter().map(|a| Field::dummy(a.clone())).collect();
+        let p = if portable { OptState::On } else { OptState::Off };
+        let ch = |c: &char| enc_str(&c.to_string());
+        match yash_builtin::set::syntax::parse(fields, p) {
+            Ok(C::PrintVariables) => "ok vars".into(),
+            Ok(C::PrintOptionsHumanReadable) => "ok human".into(),
+            Ok(C::PrintOptionsMachineReadable) => "ok machine".into(),
+            Ok(C::Modify { options, positional_params }) => format!(
+                "ok modify [{}] params={}",
+                show_opts(&options),
+                positional_params
+                    .map(|l| format!("[{}]", show_strs(l.iter().map(|f| f.value.as_str()))))
+                    .unwrap_or_else(|| "~".into())
+            ),
+            Err(e) => match e {
+                E::UnknownShortOption(c, _) => format!("err:unknownShort:{}", ch(&c)),
+                E::UnknownLongOption(_) => "err:unknownLong".into(),
+                E::AmbiguousLongOption(_) => "err:ambiguousLong".into(),
+                E::MissingOptionArgument(_) => "err:missingArgument".into(),
+                E::UnmodifiableShortOption(c, _) => format!("err:unmodifiableShort:{}", ch(&c)),
+                E::UnmodifiableLongOption(_) => "err:unmodifiableLong".into(),
+                E::NonPortableShortOption(c, _) => format!("err:nonPortableShort:{}", ch(&c)),
+                E::NonPortableLongOption(..) => "err:nonPortableLong".into(),
+                E::UnseparatedOptionArgument(..) => "err:unseparated".into(),
+                _ => "err:other".into(),
+            },
+        }
+    })
+}
+
+fn observe_sh(argv: &[String]) -> String {
+    use yash_cli::startup::args::{Error as E, InitFile, Parse, Source};
+    guarded(|| {
+        let ch = |c: &char| enc_str(&c.to_string());
+        match yash_cli::startup::args::parse(argv.iter().cloned()) {
+            Ok(Parse::Help) => "ok help".into(),
+            Ok(Parse::Version) => "ok version".into(),
+            Ok(Parse::Run(r)) => {
+                let src = match &r.work.source {
+                    Source::Stdin => "stdin".to_string(),
+                    Source::File { path } => format!("file:{}", enc_str(path)),
+                    Source::String(s) => format!("string:{}", enc_str(s)),
+                };
+                let ini = |i: &InitFile| match i {
+                    InitFile::None => "none".to_string(),
+                    InitFile::Default => "default".to_string(),
+                    InitFile::File { path } => format!("file:{}", enc_str(path)),
+                };
+                format!(
+                    "ok run src={} profile={} rcfile={} opts=[{}] arg0={} params=[{}]",
+                    src,
+                    ini(&r.work.profile),
+                    ini(&r.work.rcfile),
+                    show_opts(&r.options),
+                    enc_str(&r.arg0),
+                    show_strs(r.positional_params.iter().map(|s| s.as_str()))
+                )
+            }
+            Err(e) => match e {
+                E::UnknownShortOption(c) => format!("err:unknownShort:{}", ch(&c)),
+                E::UnknownLongOption(_) => "err:unknownLong".into(),
+                E::AmbiguousLongOption(_) => "err:ambiguousLong".into(),
+                E::MissingOptionArgument(_) => "err:missingArgument".into(),
+                E::UnexpectedOptionArgument(_) => "err:unexpectedArgument".into(),
+                E::ConflictingSources => "err:conflictingSources".into(),
+                E::UnnegatableShortOption(c) => format!("err:unnegatableShort:{}", ch(&c)),
+                E::UnnegatableLongOption(_) => "err:unnegatableLong".into(),
+                E::MissingCommandString => "err:missingCommandString".into(),
+                E::NonPortableShortOption(c) => format!("err:nonPortableShort:{}", ch(&c)),
+                E::NonPortableShortOptionNegation(c) => format!("err:nonPortableShortNegation:{}", ch(&c)),
+                E::NonPortableLongOption(..) => "err:nonPortableLong".into(),
+                E::UnseparatedOptionArgument { .. } => "err:unseparated".into(),
+            },
+        }
+    })
+}
+
+fn observe_kill(portable: bool, args: &[String]) -> String {
+    use yash_builtin::kill::Command as C;
+    use yash_builtin::kill::syntax::Error as E;
+    guarded(|| {
+        let mut env = yash_env::Env::new_virtual();
+        if portable {
+            env.options.set(ShOpt::Portable, OptState::On);
+        }
+        let fields: Vec<Field> = args.iter().map(|a| Field::dummy(a.clone())).collect();
+        let ch = |c: &char| enc_str(&c.to_string());
+        match yash_builtin::kill::syntax::parse(&env, fields) {
+            Ok(C::Send { signal, signal_origin, targets }) => format!(
+                "ok send {} origin={} [{}]",
+                signal,
+                signal_origin.is_some() as u8,
+                show_strs(targets.iter().map(|f| f.value.as_str()))
+            ),
+            Ok(C::Print { signals, verbose }) => {
+                format!("ok print [{}] verbose={}", show_strs(signals.iter().map(|f| f.value.as_str())), verbose as u8)
+            }
+            Ok(_) => "ok other".into(),
+            Err(e) => match e {
+                E::UnknownOption(_) => "err:unknownOption".into(),
+                E::NonPortableOption(c, _) => format!("err:nonPortableOption:{}", ch(&c)),
+                E::ConflictingOptions { list_option_name, .. } => format!("err:conflictingOptions:{}", ch(&list_option_name)),
+                E::MissingSignal { signal_option_name, .. } => format!("err:missingSignal:{}", ch(&signal_option_name)),
+                E::UnseparatedSignalArgument { .. } => "err:unseparatedSignalArgument".into(),
+                E::NonPortableSignalNumber { number, .. } => format!("err:nonPortableSignalNumber:{number}"),
+                E::NonPortableSignalPrefix { .. } => "err:nonPortableSignalPrefix".into(),
+                E::MultipleSignals(..) => "err:multipleSignals".into(),
+                E::InvalidSignal(_) => "err:invalidSignal".into(),
+                E::MultipleListOperands(..) => "err:multipleListOperands".into(),
+                E::NonPortableListOperand(_) => "err:nonPortableListOperand".into(),
+                E::MissingTarget => "err:missingTarget".into(),
+                _ => "err:other".into(),
+            },
+        }
+    })
+}
+
+/// `-xyz` -> `-x -y -z`, `-xoNAME` -> `-x -o NAME` (same for `+`); with `long`, `--NAME` -> `-o NAME` and
+/// `++NAME` -> `+o NAME`.  Clusters containing their own sign as a letter are kept.
+fn separate_so(args: &[String], long: bool) -> Vec<String> {
+    let mut out = vec![];
+    let mut i = 0;
+    while i < args.len() {
+        let cs: Vec<char> = args[i].chars().collect();
+        let short = cs.len() >= 2 && (cs[0] == '-' || cs[0] == '+') && cs[1] != cs[0];
+        if short {
+            let sign = cs[0];
+            let letters = &cs[1..];
+            let pos_o = letters.iter().position(|&c| c == 'o');
+            let pending = pos_o == Some(letters.len() - 1);
+            if letters.contains(&sign) {
+                out.push(args[i].clone());
+            } else {
+                let upto = pos_o.map(|p| p + 1).unwrap_or(letters.len());
+                for c in &letters[..upto] {
+                    out.push(format!("{sign}{c}"));
+                }
+                if let Some(p) = pos_o {
+                    if p + 1 < letters.len() {
+                        out.push(letters[p + 1..].iter().collect());
+                    }
+                }
+            }
+            i += 1;
+            if pending && i < args.len() {
+                out.push(args[i].clone());
+                i += 1;
+            }
+            continue;
+        }
+        if long && cs.len() > 2 && cs[0] == '-' && cs[1] == '-' {
+            out.push("-o".into());
+            out.push(cs[2..].iter().collect());
+            i += 1;
+            continue;
+        }
+        if long && cs.len() >= 2 && cs[0] == '+' && cs[1] == '+' {
+            out.push("+o".into());
+            out.push(cs[2..].iter().collect());
+            i += 1;
+            continue;
+        }
+        break;
+    }
+    out.extend_from_slice(&args[i.min(args.len())..]);
+    out
+}
+
+/// kill (portable off): `-lv` -> `-l -v`; `-sX`/`-nX` -> `-s X`/`-n X` and `-X` -> `-s X` when X is a signal specification
+fn separate_kill(args: &[String]) -> Vec<String> {
+    let env = yash_env::Env::new_virtual();
+    let is_sig = |s: &str| yash_builtin::kill::syntax::parse_signal(&env.system, s, true).is_some();
+    let mut out = vec![];
+    let mut i = 0;
+    while i < args.len() {
+        let a = &args[i];
+        if !(a.starts_with('-') && a.len() > 1) || a == "--" {
+            break;
+        }
+        let options: Vec<char> = a.chars().skip(1).collect();
+        let npre = options.iter().take_while(|&&c| c == 'l' || c == 'v').count();
+        let flags: Vec<String> = options[..npre].iter().map(|c| format!("-{c}")).collect();
+        i += 1;
+        if npre == options.len() {
+            out.extend(flags);
+            continue;
+        }
+        let c = options[npre];
+        let remainder: String = options[npre + 1..].iter().collect();
+        let whole: String = options.iter().collect();
+        if c == 's' || c == 'n' {
+            if remainder.is_empty() {
+                out.extend(flags);
+                out.push(format!("-{c}"));
+                if i < args.len() {
+                    out.push(args[i].clone());
+                    i += 1;
+                }
+            } else if is_sig(&remainder) {
+                out.extend(flags);
+                out.push(format!("-{c}"));
+                out.push(remainder);
+            } else {
+                out.push(a.clone());
+            }
+        } else if npre == 0 && is_sig(&whole) {
+            out.push("-s".into());
+            out.push(whole);
+        } else {
+            out.push(a.clone());
+        }
+    }
+    out.extend_from_slice(&args[i.min(args.len())..]);
+    out
+}
+
+fn spelling_oracle(portable: bool, given: &str, separated: Option<String>) -> String {
+    match separated {
+        None => "-".into(),
+        Some(b) if b == given => "ok".into(),
+        Some(b) => {
+            if portable || given.contains("portable=1") || b.contains("portable=1") {
+                "-".into()
+            } else {
+                format!("FAIL:separated spelling gives {b}")
+            }
+        }
+    }
+}
+
+fn run_t(w: &[&str]) -> (String, String) {
+    let bad = || ("bad-case".to_string(), "-".to_string());
+    if w.len() < 3 {
+        return bad();
+    }
+    let portable = w[1] == "1";
+    let Some(args) = w[3..].iter().map(|a| dec_str(a)).collect::<Option<Vec<String>>>() else { return bad() };
+    let obs = observe_set(portable, &args);
+    let sep = separate_so(&args, true);
+    let oracle = spelling_oracle(portable, &obs, (sep != args).then(|| observe_set(portable, &sep)));
+    (obs, oracle)
+}
+
+fn run_h(w: &[&str]) -> (String, String) {
+    let bad = || ("bad-case".to_string(), "-".to_string());
+    if w.len() < 2 {
+        return bad();
+    }
+    let Some(argv) = w[2..].iter().map(|a| dec_str(a)).collect::<Option<Vec<String>>>() else { return bad() };
+    let obs = observe_sh(&argv);
+    let oracle = if argv.is_empty() {
+        "-".to_string()
+    } else {
+        let mut sep = vec![argv[0].clone()];
+        sep.extend(separate_so(&argv[1..], false));
+        spelling_oracle(false, &obs, (sep != argv).then(|| observe_sh(&sep)))
+    };
+    (obs, oracle)
+}
+
+fn run_k(w: &[&str]) -> (String, String) {
+    let bad = || ("bad-case".to_string(), "-".to_string());
+    if w.len() < 4 {
+        return bad();
+    }
+    let portable = w[1] == "1";
+    let Some(args) = w[4..].iter().map(|a| dec_str(a)).collect::<Option<Vec<String>>>() else { return bad() };
+    let obs = observe_kill(portable, &args);
+    let oracle = if portable {
+        "-".to_string()
+    } else {
+        let sep = separate_kill(&args);
+        spelling_oracle(false, &obs, (sep != args).then(|| observe_kill(false, &sep)))
+    };
+    (obs, oracle)
+}
+
+fn t_case(portable: bool, args: &[&str]) -> String {
+    let v: Vec<String> = args.iter().map(|s| s.to_string()).collect();
+    let mut s = format!("T {} {}", portable as u8, names_dict(&v, false));
+    for a in args {
+        s.push(' ');
+        s.push_str(&enc_str(a));
+    }
+    s
+}
+
+fn h_case(argv: &[&str]) -> String {
+    let v: Vec<String> = argv.iter().skip(1).map(|s| s.to_string()).collect();
+    let mut s = format!("H {}", names_dict(&v, false));
+    for a in argv {
+        s.push(' ');
+        s.push_str(&enc_str(a));
+    }
+    s
+}
+
+fn k_case(portable: bool, args: &[&str]) -> String {
+    let v: Vec<String> = args.iter().map(|s| s.to_string()).collect();
+    let sigterm = <shell::VSys as yash_env::system::Signals>::SIGTERM.as_raw();
+    let mut s = format!("K {} {} {}", portable as u8, sigterm, names_dict(&v, true));
+    for a in args {
+        s.push(' ');
+        s.push_str(&enc_str(a));
+    }
+    s
+}
+
+const T_TOKENS: [&str; 40] = [
+    "-e", "-u", "-eu", "+e", "+eu", "-o", "+o", "errexit", "noglob", "-oerrexit", "-onoglob", "+oerrexit", "--errexit",
+    "++errexit", "--noglob", "--err", "-ex", "-eo", "-euo", "--", "-", "X", "-Z", "-eZ", "-i", "-oi", "--interactive",
+    "portable", "--portable", "-oportable", "--no", "--e", "-C", "nounset", "+C", "", "-e-", "++", "-oErr-Exit", "-n",
+];
+const H_ARG0: [&str; 4] = ["yash", "-yash", "/bin/sh", "sh"];
+const H_TOKENS: [&str; 46] = [
+    "-c", "-s", "-cs", "-i", "-e", "-ec", "+e", "-V", "-eV", "+V", "-o", "errexit", "-oerrexit", "--errexit", "++errexit",
+    "--profile", "--profile=p", "--pro", "--rcfile=r", "--norcfile", "--noprofile", "--nopro", "--help", "--version",
+    "--ver", "--help=x", "++help", "--", "-", "cmd", "script", "--portable", "-oportable", "-ce", "+c", "--no", "--n",
+    "--posixlycorrect", "-l", "--login", "-Z", "--zz", "+s", "-eo", "--r", "",
+];
+const K_TOKENS: [&str; 38] = [
+    "-s", "-n", "-l", "-v", "-lv", "INT", "TERM", "int", "SIGINT", "sigint", "9", "0", "-9", "-INT", "-int", "-SIGINT",
+    "-sINT", "-sSIGINT", "-s9", "-n9", "-nINT", "-stop", "-sigstop", "-lINT", "--", "-", "123", "%1", "-x", "-sx", "EXIT",
+    "-0", "-s0", "300", "-ls", "-vINT", "-sl", "",
+];
+
+fn enumerate_tokens(e: &mut Emitter, tokens: &[&str], maxlen: usize, f: &mut dyn FnMut(&[&str]) -> Vec<String>) {
+    let mut idx: Vec<usize> = vec![];
+    loop {
+        let args: Vec<&str> = idx.iter().map(|&i| tokens[i]).collect();
+        // one index per vector (all variants of a vector stay on one shard)
+        if e.mine() {
+            for case in f(&args) {
+                let (obs, oracle) = run_case(&case);
+                emit(&case, &obs, &oracle);
+            }
+        }
+        let mut k = idx.len();
+        loop {
+            if k == 0 {
+                if idx.len() == maxlen {
+                    return;
+                }
+                idx = vec![0; idx.len() + 1];
+                break;
+            }
+            k -= 1;
+            if idx[k] + 1 < tokens.len() {
+                idx[k] += 1;
+                for j in k + 1..idx.len() {
+                    idx[j] = 0;
+                }
+                break;
+            }
+        }
+    }
+}
+
+fn bespoke_cases(e: &mut Emitter, rng: &mut Rng, thorough: bool) {
+    let maxlen = if thorough { 3 } else { 2 };
+    enumerate_tokens(e, &T_TOKENS, maxlen, &mut |a| vec![t_case(false, a), t_case(true, a)]);
+    enumerate_tokens(e, &K_TOKENS, maxlen, &mut |a| vec![k_case(false, a), k_case(true, a)]);
+    enumerate_tokens(e, &H_TOKENS, maxlen, &mut |a| {
+        let arg0s: &[&str] = if a.len() < 3 { &H_ARG0 } else { &H_ARG0[..1] };
+        arg0s
+            .iter()
+            .map(|z| {
+                let mut v = vec![*z];
+                v.extend_from_slice(a);
+                h_case(&v)
+            })
+            .collect()
+    });
+    // `sh` with no argv at all
+    if e.mine() {
+        let case = "H _".to_string();
+        let (obs, oracle) = run_case(&case);
+        emit(&case, &obs, &oracle);
+    }
+    // random longer vectors
+    let n = if thorough { 40_000 } else { 3_000 };
+    for k in 0..n {
+        let mut r = rng.fork();
+        if !e.mine() {
+            continue;
+        }
+        let len = 3 + r.below(4);
+        let case = match k % 3 {
+            0 => {
+                let a: Vec<&str> = (0..len).map(|_| *r.pick(&T_TOKENS)).collect();
+                t_case(r.chance(1, 4), &a)
+            }
+            1 => {
+                let a: Vec<&str> = (0..len).map(|_| *r.pick(&K_TOKENS)).collect();
+                k_case(r.chance(1, 4), &a)
+            }
+            _ => {
+                let mut a: Vec<&str> = vec![*r.pick(&H_ARG0)];
+                a.extend((0..len).map(|_| *r.pick(&H_TOKENS)));
+                h_case(&a)
+            }
+        };
+        let (obs, oracle) = run_case(&case);
+        emit(&case, &obs, &oracle);
+    }
+}
+
 fn run_case(case: &str) -> (String, String) {
     let w: Vec<&str> = case.split_whitespace().collect();
     match w.first() {
@@ -679,6 +1173,9 @@ fn run_case(case: &str) -> (String, String) {
         Some(&"S") => run_s(&w),
         Some(&"M") => run_m(&w),
         Some(&"G") => run_g(&w),
+        Some(&"T") => run_t(&w),
+        Some(&"H") => run_h(&w),
+        Some(&"K") => run_k(&w),
         _ => ("bad-case".into(), "-".into()),
     }
 }
@@ -1313,6 +1810,9 @@ fn main() {
 
     // (iii) the getopts built-in's own walker
     getopts_cases(&mut e, &mut rng, thorough);
+
+    // (iv) the bespoke parsers: set, the shell's command line, kill
+    bespoke_cases(&mut e, &mut rng, thorough);
 
     // (i) exhaustive: small tables x all vectors over the token set
     let small = small_tables(thorough);
